@@ -241,7 +241,7 @@ theorem tick_progress (st : St) (hg : Good st) (hclosed : st.isOpen = false) (hq
         · rw [h] at h1; cases l <;> cases h1
         · rw [h] at hw; cases hw
         · exact hw2
-  have hstep : step st .tick = settle settleFuel (pre st .tick).1 := by
+  have hstep : step st .tick = settle (settleFuel (pre st .tick).1) (pre st .tick).1 := by
     rw [step_eq_pre]
     have : (pre st .tick).2 = true := by simp only [pre, hnd]
     rw [this]; rfl
@@ -297,7 +297,7 @@ theorem tick_closed (st : St) (hg : Good st) (hclosed : st.isOpen = false) :
       rw [List.map_map]
       exact sum_map_le _ _ _ (fun r _ => ackExpire_le _ r)
     rw [h2]
-    show (settle settleFuel (pre st .tick).1).isOpen = false ∧ _
+    show (settle (settleFuel (pre st .tick).1) (pre st .tick).1).isOpen = false ∧ _
     exact ⟨by rw [(frame_settle _ _).isOpen]; exact hpre.1, Nat.le_trans (pot_settle _ _ hinvP hpre.1) hpre.2⟩
 
 theorem pot_zero_iff (st : St) : pot (view st) = 0 ↔ ∀ r ∈ st.reqs, r.phase = .done := by
